@@ -1,6 +1,7 @@
 package rules
 
 import (
+	"go/constant"
 	"fmt"
 	"go/token"
 	"go/types"
@@ -402,6 +403,14 @@ func kvRangeThroughWalker(r *core.Run, fn *core.Fn, m string) bool {
 			r.Check(every && asks, "lookup-visits-every-table", name, site(r, instrPos(visit)),
 				"every table is handed to the visiting closure (a rotation over all indices), which asks the table on every call",
 				"some tables are skipped: the walker does not call the visiting closure in every iteration, or the closure does not always call Table."+m)
+			// the closure's answer for a table in which the visitor was never called (a table
+			// without live entries): it must be "go on", or the walk ends at the first emptied or
+			// recycled table and the tables behind it are invisible
+			if idle, known := answerWithoutVisit(cb); known {
+				r.Check(idle, "lookup-visits-every-table", name+" goes past a table without entries", site(r, cb.Pos()),
+					"the visiting closure answers true when the table had no entry to show",
+					"the visiting closure answers false when the table had no entry to show (its result is only ever set by the visitor): the walk ends at the first emptied or recycled table and the tables behind it are invisible to eviction, expiry and iteration")
+			}
 			// early exits only on the closure's answer
 			early := ""
 			for b := range l.Region() {
@@ -444,4 +453,76 @@ func kvRangeThroughWalker(r *core.Run, fn *core.Fn, m string) bool {
 		}
 	}
 	return false
+}
+
+// answerWithoutVisit evaluates what a table-visiting closure returns when the per-entry
+// callback it hands to the table is never invoked: stores made by nested closures are
+// ignored, a variable without a store in the closure itself has its zero value. known is
+// false when the result is not a constant under that assumption.
+func answerWithoutVisit(cb *ssa.Function) (val, known bool) {
+	var eval func(v ssa.Value, depth int) (bool, bool)
+	eval = func(v ssa.Value, depth int) (bool, bool) {
+		if depth > 6 {
+			return false, false
+		}
+		switch x := v.(type) {
+		case *ssa.Const:
+			if x.Value != nil && x.Value.Kind() == constant.Bool {
+				return constant.BoolVal(x.Value), true
+			}
+		case *ssa.UnOp:
+			if x.Op == token.NOT {
+				b, ok := eval(x.X, depth+1)
+				return !b, ok
+			}
+			if x.Op == token.MUL {
+				cell, ok := x.X.(*ssa.Alloc)
+				if !ok || cell.Parent() != cb {
+					return false, false
+				}
+				var vals []ssa.Value
+				for _, ref := range *cell.Referrers() {
+					if st, ok := ref.(*ssa.Store); ok && st.Addr == ssa.Value(cell) && st.Parent() == cb {
+						if ld, ok := st.Val.(*ssa.UnOp); ok && ld.Op == token.MUL && ld.X == ssa.Value(cell) {
+							continue // "return next" with a named result stores the variable into itself
+						}
+						vals = append(vals, st.Val)
+					}
+				}
+				if len(vals) == 0 {
+					return false, true // zero value
+				}
+				first, ok := eval(vals[0], depth+1)
+				if !ok {
+					return false, false
+				}
+				for _, o := range vals[1:] {
+					if b, ok := eval(o, depth+1); !ok || b != first {
+						return false, false
+					}
+				}
+				return first, true
+			}
+		}
+		return false, false
+	}
+	rets := core.Returns(cb)
+	if len(rets) == 0 {
+		return false, false
+	}
+	for i, ret := range rets {
+		if len(ret.Results) != 1 {
+			return false, false
+		}
+		b, ok := eval(ret.Results[0], 0)
+		if !ok {
+			return false, false
+		}
+		if i == 0 {
+			val = b
+		} else if b != val {
+			return false, false
+		}
+	}
+	return val, true
 }
